@@ -269,5 +269,5 @@ func Run(a Matrix, args_ ...interface{}) (Vector, Matrix, error) {
       inSitu.QrAlgorithm.U = inSitu.Eigenvectors
     }
   }
-  return eigensystem(a, inSitu, computeEigenvectors, symmetric, args)
+  return eigensystem(a, inSitu, computeEigenvectors, symmetric, args...)
 }
